@@ -8,6 +8,7 @@ package main
 
 import (
 	"fmt"
+	"math"
 	"strings"
 	"time"
 )
@@ -22,6 +23,7 @@ func extend(name string, extra func(g *Gen, tier string, res *GenOutput)) {
 }
 
 func init() {
+	extend("C01", seqC01)
 	extend("C03", seqC03)
 	extend("C04", seqC04)
 	extend("C05", seqC05)
@@ -434,5 +436,65 @@ func seqC20(g *Gen, tier string, res *GenOutput) {
 			res.Hists = append(res.Hists, RunHist("fails-part-way", []Frame{mkFrame(d, f)}, ops))
 			bump(res.Stats, "fails-part-way")
 		}
+	}
+}
+
+// ---- C01: shapes after edits of derived frames, joins with nil keys, NaN cells ----
+func seqC01(g *Gen, tier string, res *GenOutput) {
+	derivers := []string{"head", "tail", "rowslice", "filter", "multiselect", "sort", "shift", "dedup", "iloc", "loc"}
+	for rep := 0; rep < scale(tier, 2, 10); rep++ {
+		for _, d := range derivers {
+			f := mkFrame(intCol("a", 1, 2, 3), strCol("b", "x", "y", "z"), intCol("index", 10, 20, 30))
+			dop := c02Derive(g, d, f)
+			if d == "head" || d == "tail" {
+				dop.N = 3
+			}
+			if d == "rowslice" {
+				dop.A, dop.B = 0, 3
+			}
+			ops := []Op{dop,
+				{K: "dropcolumn", F: 1, S1: "b"},
+				{K: "appendrow", F: 1, Row: []KV{{K: "a", V: IntCell("int", 9)}, {K: "index", V: IntCell("int", 90)}}},
+				{K: "droprow", F: 0, N: 0},
+				{K: "appendrow", F: 0, Row: []KV{{K: "a", V: IntCell("int", 7)}}},
+				{K: "rename", F: 1, S1: "a", S2: "zz"},
+				{K: "dropna", F: 0}}
+			res.Hists = append(res.Hists, RunHist("derive-then-reshape-both "+d, []Frame{f}, ops))
+			bump(res.Stats, "derive-then-reshape-both")
+		}
+	}
+	for i := 0; i < scale(tier, 40, 400); i++ {
+		nl, nr := 1+g.r.Intn(4), 1+g.r.Intn(4)
+		keys := []Cell{NilCell(), IntCell("int", 1), IntCell("int", 2), StrCell("a"), NilCell()}
+		lk, rk := Col{Key: "k", Name: "k", Data: []Cell{}}, Col{Key: "k", Name: "k", Data: []Cell{}}
+		la, rv := Col{Key: "a", Name: "a", Data: []Cell{}}, Col{Key: "v", Name: "v", Data: []Cell{}}
+		for j := 0; j < nl; j++ {
+			lk.Data = append(lk.Data, keys[g.r.Intn(len(keys))])
+			la.Data = append(la.Data, StrCell(fmt.Sprintf("L%d", j)))
+		}
+		for j := 0; j < nr; j++ {
+			rk.Data = append(rk.Data, keys[g.r.Intn(len(keys))])
+			rv.Data = append(rv.Data, F64Cell([]float64{1.5, 0, 2.25}[g.r.Intn(3)]))
+		}
+		ops := []Op{}
+		for _, jk := range []string{"inner", "left", "right", "outer"} {
+			ops = append(ops, Op{K: "join", F: 0, G: 1, JK: jk, S1: "k"})
+		}
+		ops = append(ops, Op{K: "dropna", F: 5}, Op{K: "appendrow", F: 3, Row: []KV{{K: "k", V: IntCell("int", 5)}}})
+		res.Hists = append(res.Hists, RunHist("joins-with-nil-keys", []Frame{mkFrame(lk, la), mkFrame(rk, rv)}, ops))
+		bump(res.Stats, "joins-with-nil-keys")
+	}
+	// NaN and other special floats next to nils: cleaning operations must treat every column alike
+	for i := 0; i < scale(tier, 30, 300); i++ {
+		n := 1 + g.r.Intn(5)
+		a := Col{Key: "a", Name: "a", Data: []Cell{}}
+		b := Col{Key: "b", Name: "b", Data: []Cell{}}
+		for r := 0; r < n; r++ {
+			a.Data = append(a.Data, []Cell{F64Cell(math.NaN()), F64Cell(1.5), NilCell(), F64Cell(math.Inf(1)), F64Cell(math.Copysign(0, -1))}[g.r.Intn(5)])
+			b.Data = append(b.Data, []Cell{IntCell("int", int64(r)), NilCell(), StrCell("NaN"), StrCell("")}[g.r.Intn(4)])
+		}
+		ops := []Op{{K: "dropna", F: 0}, {K: "dedupinplace", F: 0, S1: "first"}, {K: "fillna", F: 0, Cell: cellp(F64Cell(math.NaN()))}, {K: "dropna", F: 0}, {K: "csvroundtrip", F: 0}, {K: "dropna", F: 1}}
+		res.Hists = append(res.Hists, RunHist("nan-and-nil", []Frame{mkFrame(a, b)}, ops))
+		bump(res.Stats, "nan-and-nil")
 	}
 }
